@@ -191,7 +191,11 @@ pub fn traces_sat(c: &Circuit<F>, t: &Traces<F>) -> Option<String> {
         if !ok {
             return Some("slot-inconsistent".into());
         }
-        let acc = if *k == AluOpKind::HornerAcc { intermediate_out.and_then(|i| val.get(&i.0).copied()) } else { None };
+        let acc = if *k == AluOpKind::HornerAcc {
+            intermediate_out.and_then(|i| val.get(&i.0).copied().or_else(|| t.witness_trace.get_value(i).copied()))
+        } else {
+            None
+        };
         if *k == AluOpKind::HornerAcc && acc.is_none() {
             return Some("horner-acc-unknown".into());
         }
@@ -200,6 +204,22 @@ pub fn traces_sat(c: &Circuit<F>, t: &Traces<F>) -> Option<String> {
         }
     }
     None
+}
+
+/// The ALU main matrix as the prover would commit it for these traces.
+pub fn alu_matrix(circuit: &Circuit<F>, traces: &Traces<F>, packing: &TablePacking) -> Option<Vec<F>> {
+    catch_unwind(AssertUnwindSafe(|| {
+        let (airs_degrees, _, _) =
+            get_airs_and_degrees_with_prep::<BabyBearConfig, F, 1>(circuit, packing, &[], &[], ConstraintProfile::Standard).ok()?;
+        for (air, deg) in airs_degrees {
+            if let p3_circuit_prover::common::CircuitTableAir::Alu(a) = air {
+                return Some(a.trace_to_matrix(&traces.alu_trace, 1 << deg).values);
+            }
+        }
+        None
+    }))
+    .ok()
+    .flatten()
 }
 
 fn desc_outcome(o: &Outcome) -> String {
@@ -360,6 +380,11 @@ pub fn main(args: &crate::Args) {
                 }
             };
             let Some((ft, what)) = forged else { continue };
+            // a record cell that the (packed) ALU layout never commits forges nothing
+            if mode == 1 && alu_matrix(&circuit, &ft, &packing) == alu_matrix(&circuit, &traces_from_assignment(&circuit, &wvals), &packing) {
+                *hist.entry("forged.mode1.not-committed".into()).or_default() += 1;
+                continue;
+            }
             let o = prove_verify(&circuit, &ft, &packing);
             evals += 1;
             let bad = traces_sat(&circuit, &ft);
